@@ -60,6 +60,26 @@ pub struct FailOb<'a, O> {
     pub inner: &'a mut O,
     pub fail_at: Option<usize>,
     pub n: usize,
+    pub kind: io::ErrorKind,
+}
+/// a byte store whose positioned writes take at most `max` bytes per call (reads are complete)
+pub struct Choppy {
+    pub data: Vec<u8>,
+    pub max: usize,
+}
+impl sync::WriteAt for Choppy {
+    fn write_at(&mut self, pos: u64, buf: &[u8]) -> io::Result<usize> {
+        let n = buf.len().min(self.max);
+        sync::WriteAt::write_at(&mut self.data, pos, &buf[..n])
+    }
+    fn flush(&mut self) -> io::Result<()> {
+        Ok(())
+    }
+}
+impl sync::ReadAt for Choppy {
+    fn read_at(&self, pos: u64, buf: &mut [u8]) -> io::Result<usize> {
+        sync::ReadAt::read_at(&self.data, pos, buf)
+    }
 }
 impl<O: sync::Outboard> sync::Outboard for FailOb<'_, O> {
     fn root(&self) -> blake3::Hash {
@@ -76,7 +96,7 @@ impl<O: sync::OutboardMut> sync::OutboardMut for FailOb<'_, O> {
     fn save(&mut self, node: TreeNode, pair: &(blake3::Hash, blake3::Hash)) -> io::Result<()> {
         if Some(self.n) == self.fail_at {
             self.n += 1;
-            return Err(io::Error::new(io::ErrorKind::Other, "injected"));
+            return Err(io::Error::new(self.kind, "injected"));
         }
         self.n += 1;
         self.inner.save(node, pair)
@@ -89,6 +109,7 @@ pub struct FailObA<'a, O> {
     pub inner: &'a mut O,
     pub fail_at: Option<usize>,
     pub n: usize,
+    pub kind: io::ErrorKind,
 }
 impl<O: fsm::Outboard> fsm::Outboard for FailObA<'_, O> {
     fn root(&self) -> blake3::Hash {
@@ -105,7 +126,7 @@ impl<O: fsm::OutboardMut> fsm::OutboardMut for FailObA<'_, O> {
     async fn save(&mut self, node: TreeNode, pair: &(blake3::Hash, blake3::Hash)) -> io::Result<()> {
         if Some(self.n) == self.fail_at {
             self.n += 1;
-            return Err(io::Error::new(io::ErrorKind::Other, "injected"));
+            return Err(io::Error::new(self.kind, "injected"));
         }
         self.n += 1;
         self.inner.save(node, pair).await
@@ -119,20 +140,22 @@ fn step_sync<O: sync::Outboard + sync::OutboardMut>(
     ob: &mut O,
     target: &mut FailTarget,
     fail_save: Option<usize>,
+    kind: io::ErrorKind,
     stream: &[u8],
     ranges: &ChunkRanges,
 ) -> Result<(), DecodeError> {
-    let fo = FailOb { inner: ob, fail_at: fail_save, n: 0 };
+    let fo = FailOb { inner: ob, fail_at: fail_save, n: 0, kind };
     sync::decode_ranges(io::Cursor::new(stream), ranges, target, fo)
 }
 fn step_fsm<O: fsm::Outboard + fsm::OutboardMut>(
     ob: &mut O,
     target: &mut FailTarget,
     fail_save: Option<usize>,
+    kind: io::ErrorKind,
     stream: &[u8],
     ranges: &ChunkRanges,
 ) -> Result<(), DecodeError> {
-    let fo = FailObA { inner: ob, fail_at: fail_save, n: 0 };
+    let fo = FailObA { inner: ob, fail_at: fail_save, n: 0, kind };
     let mut rd = stream;
     block_on(fsm::decode_ranges(&mut rd, ranges.clone(), target, fo))
 }
@@ -149,6 +172,8 @@ pub fn history(a: &[u128]) -> Vec<u128> {
     let nops = a[7] as usize;
     let t = BaoTree::new(data.len() as u64, BlockSize::from_chunk_log(bs));
     let root = refenc::root(&data);
+    let choppy = sink >= 5;
+    let sink = if sink >= 5 { sink - 5 } else { sink };
     let mut ob = Ob::new(sink, root, t, vec![0u8; t.outboard_size() as usize]);
     let mut target = FailTarget { data: vec![prefill; data.len()], fail_at: None, n: 0 };
     let mut i = 8;
@@ -164,29 +189,42 @@ pub fn history(a: &[u128]) -> Vec<u128> {
         }
         target.fail_at = if cutkind == 2 { Some(cutparam) } else { None };
         target.n = 0;
-        let fail_save = if cutkind == 3 { Some(cutparam) } else { None };
+        let fail_save = if cutkind == 3 || cutkind == 4 { Some(cutparam) } else { None };
+        let kind = if cutkind == 4 { io::ErrorKind::InvalidInput } else { io::ErrorKind::Other };
         let ranges = mk_ranges(&q);
         let r = match (&mut ob, driver) {
-            (Ob::PreIO(x), 2) => step_sync(x, &mut target, fail_save, &stream, &ranges),
-            (Ob::PostIO(x), 2) => step_sync(x, &mut target, fail_save, &stream, &ranges),
-            (Ob::PreMem(x), 2) => step_sync(x, &mut target, fail_save, &stream, &ranges),
-            (Ob::PostMem(x), 2) => step_sync(x, &mut target, fail_save, &stream, &ranges),
-            (Ob::Empty(x), 2) => step_sync(x, &mut target, fail_save, &stream, &ranges),
+            (Ob::PreIO(x), 2) if choppy => {
+                let mut tmp = PreOrderOutboard { root: x.root, tree: x.tree, data: Choppy { data: std::mem::take(&mut x.data), max: 48 } };
+                let r = step_sync(&mut tmp, &mut target, fail_save, kind, &stream, &ranges);
+                x.data = tmp.data.data;
+                r
+            }
+            (Ob::PostIO(x), 2) if choppy => {
+                let mut tmp = PostOrderOutboard { root: x.root, tree: x.tree, data: Choppy { data: std::mem::take(&mut x.data), max: 48 } };
+                let r = step_sync(&mut tmp, &mut target, fail_save, kind, &stream, &ranges);
+                x.data = tmp.data.data;
+                r
+            }
+            (Ob::PreIO(x), 2) => step_sync(x, &mut target, fail_save, kind, &stream, &ranges),
+            (Ob::PostIO(x), 2) => step_sync(x, &mut target, fail_save, kind, &stream, &ranges),
+            (Ob::PreMem(x), 2) => step_sync(x, &mut target, fail_save, kind, &stream, &ranges),
+            (Ob::PostMem(x), 2) => step_sync(x, &mut target, fail_save, kind, &stream, &ranges),
+            (Ob::Empty(x), 2) => step_sync(x, &mut target, fail_save, kind, &stream, &ranges),
             (Ob::PreIO(x), _) => {
                 let mut tmp = PreOrderOutboard { root: x.root, tree: x.tree, data: bytes::BytesMut::from(&x.data[..]) };
-                let r = step_fsm(&mut tmp, &mut target, fail_save, &stream, &ranges);
+                let r = step_fsm(&mut tmp, &mut target, fail_save, kind, &stream, &ranges);
                 x.data = tmp.data.to_vec();
                 r
             }
             (Ob::PostIO(x), _) => {
                 let mut tmp = PostOrderOutboard { root: x.root, tree: x.tree, data: bytes::BytesMut::from(&x.data[..]) };
-                let r = step_fsm(&mut tmp, &mut target, fail_save, &stream, &ranges);
+                let r = step_fsm(&mut tmp, &mut target, fail_save, kind, &stream, &ranges);
                 x.data = tmp.data.to_vec();
                 r
             }
-            (Ob::PreMem(x), _) => step_fsm(x, &mut target, fail_save, &stream, &ranges),
-            (Ob::PostMem(x), _) => step_fsm(x, &mut target, fail_save, &stream, &ranges),
-            (Ob::Empty(x), _) => step_fsm(x, &mut target, fail_save, &stream, &ranges),
+            (Ob::PreMem(x), _) => step_fsm(x, &mut target, fail_save, kind, &stream, &ranges),
+            (Ob::PostMem(x), _) => step_fsm(x, &mut target, fail_save, kind, &stream, &ranges),
+            (Ob::Empty(x), _) => step_fsm(x, &mut target, fail_save, kind, &stream, &ranges),
         };
         let (rc, p) = match &r {
             Ok(()) => (0, 0),
